@@ -124,6 +124,9 @@ struct RefDLO {
     RP(get_D) RP(get_D_N) RP(eval_add_Q_N) RP(eval_add_R_prod_masked) RP(eval_add_S_prod_masked) RP(get_R_work_size)
     RP(get_S_work_size) RP(eval_constr) RP(eval_constr_N) RP(eval_grad_constr_prod) RP(eval_grad_constr_prod_N)
     RP(eval_add_gn_hess_constr) RP(eval_add_gn_hess_constr_N)
+    // the output mapping is optional in ControlProblemVTable: a plug-in that leaves the table member null
+    // does not provide it (documented default: not_implemented_error, mandatory only for nh > 0)
+    RP(eval_h) RP(eval_h_N)
 #undef RP
 };
 
